@@ -11,8 +11,8 @@ from beziers.utils.linesweep import bbox_intersections
 RULE = ('boxes/points on an integer grid (incl. zero-width/zero-height boxes, points on edges and corners) and random floats; sweep: ALL '
         'configurations of <=2+2 boxes on a 4x4 grid satisfying the tie condition, plus random collections of 0..40 rectangles, lines and cubics '
         'satisfying it; non-trivial = at least one overlapping pair')
-NOT_PROVED = ['nothing: the statement is proved in full over R; float comparisons are exact, so the float instance coincides with the real one on finite inputs']
-ASSUMPTIONS = ['distinct shapes compare unequal (object identity); two value-equal Segment objects in one collection are outside the model']
+NOT_PROVED = ['nothing: the statement is proved in full over R, and (Proofs/C19float.v, via Flocq) the binary64 instance of includes / overlaps / the whole sweep is proved EQUAL to the real instance on the real values of finite inputs, so every theorem transfers to floats; NaN/infinite coordinates are outside (witnesses: includes_needs_finite, overlaps_nan_true_computed)']
+ASSUMPTIONS = ['Coq.Floats.FloatAxioms (stdlib specification of the primitive float operations) for the float-instance theorems', 'distinct shapes compare unequal (object identity); two value-equal Segment objects in one collection are outside the model']
 HAND_FINGERPRINTS = [('utils/linesweep.py', 'bbox_intersections'), ('utils/linesweep.py', 'dequefilter')]
 P = Point
 
